@@ -93,6 +93,24 @@ TEXT = {
         level_note="Trusted: the event log's global order (one mutex) and synctest. Incoming handlers always accept.",
         design_ref="DESIGN.md section 4, C19",
     ),
+    "C04": dict(
+        technique="property-based testing (rapid) of the real Acceptor/Initiator over a scripted in-memory net.Conn: generated read partitions, timings, connection counts and concurrent senders; sent-list = delivered-list oracle",
+        level_text="Exploration: message streams are cut by generated partitions (one byte per read, cuts inside the CheckSum tag, everything coalesced, chunks > 4096) and fed to 1-4 simultaneous connections with generated virtual delays; the per-connection incoming handler must receive exactly the sent messages (count, order, bytes, one at a time, no cross-talk); concurrently 0-6 goroutines hand messages to Send/SendBatch/SendRaw and the captured outbound stream must split into exactly those messages in hand-off order.",
+        level_note="Trusted: netsim (own tests: bytes fed = bytes read for any chunking; deadline semantics), harness/ref.Split, synctest.",
+        design_ref="DESIGN.md section 4, C04",
+    ),
+    "C05": dict(
+        technique="property-based testing (rapid) of concurrent senders against the real session over netsim, with scheduler yields injected inside store/handler call-outs and runs at GOMAXPROCS 16/4/2/1; wire-numbering invariant on independently tokenized captured bytes",
+        level_text="Exploration: 1-8 goroutines x 1-12 sends with generated virtual delays interleave with timer heartbeats, TestRequest answers and Rejects; the injected stores and an outgoing handler yield the processor a generated number of times per call so that a missing critical section reorders numbers on the wire; 1-3 successive sessions share a counter store. Oracle: consecutive MsgSeqNum from the stored counter, identifiers, SendingTime syntax and interval, framing.",
+        level_note="Trusted: netsim capture, harness/ref, synctest. The harness owns the clock, not the scheduler: interleavings inside one library function are explored by repetition across shards and GOMAXPROCS values only.",
+        design_ref="DESIGN.md section 4, C05",
+    ),
+    "C13": dict(
+        technique="fault enumeration: complete cross product of termination causes x injection points x in-flight traffic over fixed script families, plus rapid-drawn scripts and timings; virtual-clock termination oracle and own goroutine-leak detection inside the synctest bubble",
+        level_text="Fault enumeration: every (script family, role, buffer size, cause, in-flight shape) tuple is executed on every run, and rapid adds drawn scripts/timings; after a bounded virtual settling time the socket must be closed, the serving call returned, the passive side notified, parked and later sends returned, and no goroutine with a library frame may remain in the bubble (read from runtime.Stack, filtered to the bubble).",
+        level_note="Trusted: synctest's notion of durable blocking, netsim's fault injection, runtime.Stack. Limits: one parked sender at most; blocked-write expiry is scripted; kernel socket behaviours are represented only by the error/closure classes netsim implements.",
+        design_ref="DESIGN.md section 4, C13",
+    ),
 }
 
 _claimed = set(TEXT)
